@@ -201,6 +201,7 @@ def correspondence(ctx):
     for _ in range(ctx.scale(120, 1500)):
         seqs.append(gen_ops(rng, rng.randint(2, 10)))
     checks, descr = [], []
+    reported = set()
     for ops in seqs:
         done, dump = run(execute(ops))
         checks.append(coq_case(done, dump))
@@ -211,7 +212,10 @@ def correspondence(ctx):
         for o in done:
             ctx.count("rows_op_" + o[0])
         for sig, what in history_violations(done, dump):
-            ctx.add_failure("oracle", "nglob-rows", sig, f"after {done!r}: {what}", witness={"row_ops": ops, "what": what})
+            ctx.count("oracle_" + sig)
+            if sig not in reported:
+                reported.add(sig)
+                ctx.add_failure("oracle", "nglob-rows", sig, f"after {done!r}: {what}", witness={"row_ops": ops, "what": what})
     ctx.count("E2g_cases", len(checks))
     bad = common.run_cases(ctx, "e2g", HEADER, checks, chunk=200)
     ctx.traces_validated += len(checks) - len(bad)
@@ -220,6 +224,20 @@ def correspondence(ctx):
         ctx.add_failure("correspondence", "E2g", "E2g:" + "+".join(sorted({o[0] for o in done})),
                         f"model/GlobRows.v and the nglob table disagree after {done!r}: table {dump!r}",
                         witness={"row_ops": ops, "performed": done, "table": dump})
+
+
+def search(ctx, n):
+    """Implementation only (no Coq, no generated files): the history oracle at a larger scale."""
+    rng = ctx.rng
+    seen = set()
+    for k in range(n):
+        ops = DIRECTED[k] if k < len(DIRECTED) else gen_ops(rng, rng.randint(2, 14))
+        done, dump = run(execute(ops))
+        ctx.case(("rows-search", repr(done)), True)
+        for sig, what in history_violations(done, dump):
+            if sig not in seen:
+                seen.add(sig)
+                ctx.add_failure("oracle", "nglob-rows", sig, f"after {done!r}: {what}", witness={"row_ops": ops, "what": what})
 
 
 def replay(ctx, w):
